@@ -53,6 +53,9 @@ type concParams struct {
 	// CrashAll (C04): recover the durable image after every mutating storage operation of the
 	// concurrent window, not only at sync acknowledgements and at the end.
 	CrashAll bool `json:"crash_all,omitempty"`
+	// RevSame: search the second base schedule (@rev) at the same bound as the first (default:
+	// one lower).
+	RevSame bool `json:"rev_same,omitempty"`
 	// Residue (C07): after the window, once the background work has settled (virtual time), the
 	// storage must hold nothing but the live tables, journal(s), manifest and CURRENT.
 	Residue bool `json:"residue,omitempty"`
